@@ -11,7 +11,7 @@ package shamir
 //vx:timelimit quick=200 thorough=3600
 //vx:param assocA quick=15 thorough=255
 //vx:param xmax2 quick=40 thorough=255
-//vx:param xmax3 quick=7 thorough=24
+//vx:param xmax3 quick=7 thorough=12
 //vx:entry VxReconstruct3 quick,thorough
 //vx:entry VxIndependence3 quick,thorough
 
